@@ -8,6 +8,7 @@ import staircase as sc
 from staircase.constants import inf
 from staircase.core.ops import docstrings
 from staircase.core.ops.common import (
+    _assert_closeds_equal,
     convert_string_args_to_timestamp,
     requires_closed_match,
 )
@@ -104,6 +105,7 @@ def _mask_stairs(self, other, inverse):
             return sc.Stairs(initial_value=np.nan, closed=self.closed)
         else:
             return self.copy()
+    _assert_closeds_equal(self, other)
     return _maskify(other, inverse=inverse) + self
 
 
